@@ -79,14 +79,14 @@ Lemma ex_fec_ids :
 Proof. vm_compute. repeat split; reflexivity. Qed.
 
 (* ---- distinct nonces, distinct datagrams: the same request three times (retransmission) *)
-Definition ex_reqs : list (req * Z) := [(mkReq ex_kcp false, 0); (mkReq ex_kcp false, 1); (mkReq [0;0;0;1;9] true, 2)].
+Definition ex_reqs : list (req * Z * Z) := [(mkReq ex_kcp false, 0, 1400); (mkReq ex_kcp false, 1, 1400); (mkReq [0;0;0;1;9] true, 2, 1400)].
 Definition ex_nonces : list bytes := [ex_nonce16; ex_nonce16b; rev ex_nonce16; rev ex_nonce16b; ex_nonce16 ++ []].
 
 Lemma ex_distinct_hyps :
   uses_nonce CCrc = true /\
   Forall (fun n => blen n = nonce_len toyK CCrc) (firstn 4 ex_nonces) /\
   NoDup (firstn 4 ex_nonces) /\
-  (length (run_bodies (snd (stage1_run toy_rs ex_fec ex_reqs))) <= length (firstn 4 ex_nonces))%nat /\
+  (length (run_bodies (snd (stage1w_run toy_rs (aead_extra toyK CCrc) ex_fec ex_reqs))) <= length (firstn 4 ex_nonces))%nat /\
   length (snd (pp_run toy_rs toyK CCrc ex_fec ex_reqs (firstn 4 ex_nonces))) = 4%nat.
 Proof.
   split; [reflexivity|]. split; [repeat constructor|]. split.
@@ -141,4 +141,31 @@ Lemma ex_no_disturb_tx :
   fst (stage1_run toy_rs ex_fec ex_mixed) = fst (stage1_run toy_rs ex_fec (filter is_data ex_mixed)) /\
   (* two parity packets were produced along the way *)
   length (concat (map snd (snd (stage1_run toy_rs ex_fec ex_mixed)))) = 2%nat.
+Proof. vm_compute. repeat split; reflexivity. Qed.
+
+(* ---- C10, session half *)
+Lemma ex_setmtu :
+  sess_set_mtu toyK CCrc ex_fec 1400 = Some 1372 /\
+  sess_set_mtu toyK CCrc ex_fec 2000 = Some 1472 /\          (* capped at 1500 *)
+  sess_set_mtu toyK CCrc ex_fec 53 = Some 25 /\ sess_set_mtu toyK CCrc ex_fec 52 = None /\
+  sess_set_mtu toyK CAead (sess_fec_new toyK CAead 2 1) 1500 = Some 1479 /\
+  sess_set_mtu toyK CNone None 25 = Some 25 /\ sess_set_mtu toyK CNone None 24 = None /\
+  sess_set_mtu toyK CCrc ex_fec (-1) = None /\
+  (* a full-sized core datagram of the accepted MTU comes out at exactly the MTU *)
+  (let '(_, body, _) := stage1 toy_rs ex_fec (mkReq (repeat 7 25) false) 0 in
+   blen (frame toyK CCrc ex_nonce16 body) = 53).
+Proof. vm_compute. repeat split; reflexivity. Qed.
+
+(* the repaired postProcess: a 2/1 group whose first packet is long, wire MTU lowered to 40 before
+   the second: the encoder produces a parity as long as the first packet, postProcess does not
+   send it; with the old MTU (1400) it is sent; the encoder ends in the same state either way *)
+Definition ex_big : req := mkReq (repeat 9 60) false.
+Definition ex_small : req := mkReq [1; 2; 3] false.
+Lemma ex_parity_drop :
+  let fe1 := fst (fst (stage1w toy_rs 1400 0 ex_fec ex_big 0)) in
+  let '(feA, _, psA) := stage1w toy_rs 40 0 fe1 ex_small 1 in
+  let '(feB, _, psB) := stage1w toy_rs 1400 0 fe1 ex_small 1 in
+  psA = [] /\ map (fun q => blen q) psB = [68] /\ feA = feB /\
+  option_map fe_next feA = Some 3 /\
+  match ex_fec with Some e => fe_hoff e = cipher_hdr toyK CCrc | None => False end.
 Proof. vm_compute. repeat split; reflexivity. Qed.
